@@ -8,6 +8,7 @@ package main
 
 import (
 	"fmt"
+	"math"
 	"os"
 	"time"
 
@@ -87,7 +88,7 @@ func initsFor(tier string, primary bool, pl string) []int {
 	case tier == "quick" && primary:
 		return []int{0, 1, 2, 3, 4, 5, 6}
 	case tier == "quick":
-		return []int{0, 2, 5}
+		return []int{0, 2}
 	case pl == "L4cccc":
 		return []int{0, 2}
 	case primary:
@@ -168,6 +169,12 @@ func runProgram(c *engine.Chooser, e *env, name string, init int, first []instr,
 		c.Cover("packing", "full")
 	}
 	c.Cover("slots", fmt.Sprint(e.x.Slots))
+	// the property is conditional on the message fitting the modulus: an initial file that does not (default
+	// scale above Q_0 in the two-primes-per-rescale mode) is out of scope as a whole
+	if r := m.r[0]; math.Log2(r.sf())+math.Log2(r.v.MaxAbs()+r.eps)+2 >= e.log2Q(r.level)-1 {
+		c.Skip("initial register file does not fit the modulus")
+		return
+	}
 	alpha := first
 	for pos := 0; ; pos++ {
 		ins := alpha[c.Choose(len(alpha), fmt.Sprintf("i%d", pos))]
